@@ -79,6 +79,12 @@ FAMILIES = {
     "p_scopecycle": fam(Prog="ProgScopeCycle", Ctors=["cyclic", "limits"], Ops=["set"], MaxVars=2, MaxNodes=8, MaxObs=2, MaxActs=10,
                         MaxRounds=3, MaxH=16),
     "p_subs": fam(Prog="ProgSubs", Ops=["set"], MaxVars=1, MaxNodes=1, MaxObs=2, MaxSubs=3, MaxActs=10, MaxRounds=3),
+    # shapes taken from the third round of seeded changes (DESIGN 12.11)
+    "p_depcut": fam(Prog="ProgDepCut", Ops=["set"], MaxVars=1, MaxNodes=4, MaxObs=3, MaxActs=12, MaxRounds=3),
+    "p_nestshallow": fam(Prog="ProgNestShallow", Ops=["set"], MaxVars=3, MaxNodes=6, MaxObs=1, MaxActs=12, MaxRounds=3, MaxH=16),
+    "p_leakinv": fam(Prog="ProgLeakInv", Ops=["set"], MaxVars=2, MaxNodes=5, MaxObs=2, MaxActs=13, MaxRounds=3, MaxH=16),
+    "p_xsumshared": fam(K=3, Prog="ProgXSumShared", Ops=["set"], MaxVars=2, MaxNodes=5, MaxObs=2, MaxActs=11, MaxRounds=3, MaxH=16),
+    "p_xsumctl": fam(K=2, Prog="ProgXSumCtl", Ops=["set"], MaxVars=1, MaxNodes=4, MaxObs=3, MaxActs=11, MaxRounds=3, MaxH=16),
     # node-level on_update handlers (Incr::on_update): counters in the audit, deliveries as conformance
     "onupd_s": fam(Ctors=["var", "map"], Fs1=["id", "const0"], Effs=["onupdate"], MaxNodes=2, MaxObs=2, MaxActs=8, MaxRounds=3),
     # crash points other than node functions: bind closure / cutoff function / expert observability callback
@@ -105,7 +111,7 @@ for _n in [n for n in list(FAMILIES) if n.startswith("p_")]:
 # keep the exported sample of behaviours around 50-80k per family (TLC still visits every state)
 for _n, _mod in dict(core_s=4, bind_s=6, obs_s=5, p_xsum=5, panic_s=8, cycle_s=4, p_bindtall=3, ownbind_s=10, memo_s=3,
                      pick_q=8, pick_s=12, own_s=5, ref_s=7, leak_s=4, nest_s=5, height_s=2, xjoin_s=5, mwo_s=11, mwo4_s=6,
-                     obsfx_s=5, xsum_s=2, eff_s=2, p_cutreobs=9, cut_s=5, p_xcell=4, p_memo=2, misuse_s=1, bindalt_s=1,
+                     obsfx_s=5, xsum_s=2, eff_s=2, p_cutreobs=9, p_leakinv=5, p_xsumshared=4, p_xsumctl=6, p_depcut=5, cut_s=5, p_xcell=4, p_memo=2, misuse_s=1, bindalt_s=1,
                      p_xjoin=2).items():
     FAMILIES[_n]["ExportMod"] = _mod
 # thorough variants explore ~5-10x more states: sample accordingly
@@ -151,12 +157,12 @@ def _plan(*names):
 RND = dict(quick=48, thorough=600, len=40)
 
 PROPS = {
-    "C01": dict(families=plan("core_s", "ref_s", "pick_q", "mwo4_s", sim="sim_engine"), random=RND),
+    "C01": dict(families=plan("core_s", "ref_s", "pick_q", "mwo4_s", "p_depcut", sim="sim_engine"), random=RND),
     "C02": dict(random=RND, families=plan("bind_s", "nest_s", "p_bindtall", "p_grow", sim="sim_engine")),
-    "C03": dict(random=RND, families=plan("leak_s", "bind_s", sim="sim_engine")),
+    "C03": dict(random=RND, families=plan("leak_s", "bind_s", "p_nestshallow", "p_leakinv", sim="sim_engine")),
     "C04": dict(families=plan("leak_s", "xjoin_s", "obsfx_s", "leak_s@release", "xjoin_s@release", sim="sim_engine"),
                 random=dict(quick=48, thorough=600, len=40)),
-    "C05": dict(random=RND, families=plan("obs_s", "obsfx_s", "pick_q", sim="sim_engine")),
+    "C05": dict(random=RND, families=plan("obs_s", "obsfx_s", "pick_q", "p_leakinv", sim="sim_engine")),
     "C06": dict(random=RND, families=plan("cut_s", "mwo4_s", "p_cutreobs", "p_refcut", sim="sim_engine")),
     "C07": dict(random=RND, families=plan("obs_s", "eff_s", "p_update", sim="sim_engine")),
     "C08": dict(random=RND, families=plan("var_s", "eff_s", "obsfx_s", "p_update", sim="sim_engine")),
@@ -164,9 +170,12 @@ PROPS = {
     "C10": dict(random=RND, families=plan("obs_s", "obsfx_s", "p_subs", sim="sim_engine")),
     # thorough additionally audits the snapshots of the repository's own 74 tests (stage_owntests)
     "C11": dict(random=RND, families=plan("obs_s", "bind_s", "bindalt_s", "bindalt_s@release", "onupd_s", sim="sim_engine"), stage_modules_thorough=["stage_owntests"]),
-    "C12": dict(random=RND, families=plan("own_s", "ownbind_s", "obsfx_s", "eff_s", sim="sim_engine")),
+    # in the families listed under after_drop a wrong value / broken bookkeeping in a history that dropped a handle
+    # earlier is C12's business too ("... in any order ... without affecting values of the remaining graph")
+    "C12": dict(random=RND, families=plan("own_s", "ownbind_s", "obsfx_s", "eff_s", "p_xsumshared", sim="sim_engine"),
+                after_drop=["p_xsumshared", "p_xsumshared_m"]),
     "C13": dict(families=plan("panic_s", "p_panic", "p_boom", "p_xarm"), profiles=["debug", "release"]),
-    "C14": dict(families=plan("xjoin_s", "xsum_s", "p_xsum", "p_xjoin", "p_xcell", sim="sim_expert")),
+    "C14": dict(families=plan("xjoin_s", "xsum_s", "p_xsum", "p_xjoin", "p_xcell", "p_xsumshared", "p_xsumctl", sim="sim_expert")),
     "C15": dict(stage_modules=["stage_mapops"]),
     # the per-key node mechanism (cell + make_stale under connect/disconnect) is also explored at engine level
     "C16": dict(stage_modules=["stage_mapi"], families=plan("p_xcell"), retag={"C14": "C16"}),
